@@ -59,6 +59,15 @@ def measure(c, stats):
 
 
 def oracle(c):
+    if c.suite != "sim-icache-reload":
+        import simspy
+        second_ = [i for i, l in enumerate(c.lines) if l.startswith("sim.prog")]
+        r = simspy.run(Case_slice(c, second_[1] if len(second_) > 1 else None))
+        if r is not None and not r["fault"]:
+            if "i_real" in r and r["i_real"] != r["i_ref"]:
+                return [Failure("oracle", PROP, f"instruction cache (hits, accesses) {r['i_real']}; a reference cache of the configured geometry fed the same fetch addresses gives {r['i_ref']} ({r['mode']})", "icache:counters-vs-configured")]
+            if r["cycles"] != r["cycles_ref"]:
+                return [Failure("oracle", PROP, f"{r['cycles']} cycles for {r['steps']} steps; steps + penalty x reference misses = {r['cycles_ref']} ({r['mode']})", "icache:penalty-vs-configured")]
     fails = []
     new = next((l for l in c.lines if l.startswith("sim.new")), None)
     if new is None or new.split()[4] == "-" or not any(l.startswith("sim.prog") for l in c.lines):
